@@ -484,6 +484,7 @@ func c19run(w *report.W) {
 		"steps:\n  - command: c\n    label: real\n    \"${EXTRA}\": templated\n    \"$KK\": k2\n  - wait: ~\n    \"${EXTRA}\": w\n",
 		"env: {EXTRA: label}\n\"${EXTRA}\": top\nsteps:\n  - group: g\n    \"${EXTRA}\": gl\n    steps:\n      - command: c\n        plugins: [{\"./p\": {\"${EXTRA}\": v}}]\n",
 	}
+	extraDocs = append(extraDocs, "steps:\n  - label: no kind\n  - command: c\n  - {key: k2, agents: {q: 1}}\n")
 	extraIdx := 0
 	ex.Run = func(x *explore.X) bool {
 		g := &docgen.Gen{X: x}
@@ -497,7 +498,11 @@ func c19run(w *report.W) {
 			doc.Descr = fmt.Sprintf("hand-written #%d (templated attribute names)", extraIdx)
 			extraIdx++
 		}
+		gParse := c19globals()
 		p, perr, pan := parsePipeline(text)
+		if g := c19globals(); g != gParse {
+			w.Violate(report.Violation{Kind: "global-changed:Parse", Case: "first Parse of [" + doc.Descr + "] " + strings.TrimSpace(text), Detail: "a package-level variable changed:\n" + c19diffLine(gParse, g), Size: 4})
+		}
 		if pan != "" || p == nil {
 			return true
 		}
